@@ -27,6 +27,14 @@ def main():
         out.update(getattr(importlib.import_module(mod), fn)(rep))
         print(json.dumps(out))
         return
+    if rep.get('property') == 'C16' and ob.startswith('law:'):
+        from harness import laws_standin
+        c, f = laws_standin.search('thorough')
+        out['cases_searched'] = c
+        if f:
+            out.update(reproduced=True, scenario=f[0]['scenario'], mismatches=f[0]['mismatches'])
+        print(json.dumps(out))
+        return
     if rep.get('property') == 'C08':
         from harness import effects_standin
         c, f = effects_standin.search()
